@@ -169,9 +169,50 @@ def r04_3(ctx):
     r = ctx.prog.func(H + '.HMesh.refine')
     loop = [l for l in own_nodes(r.node) if isinstance(l, ast.For) and 'range(len(self.meshes) - 1)' in src(l.iter)]
     if not loop:
+        # the level loop written differently: the loop that updates self.active
+        loop = [l for l in own_nodes(r.node) if isinstance(l, ast.For) and guards.in_loop(l, r.node) is None
+                and any(isinstance(s, ast.AugAssign) and src(s.target).startswith('self.active[') for s in ast.walk(l))]
+    if not loop:
         raise AnchorMissing('R04.3: level loop of HMesh.refine')
     body = loop[0].body
     texts = [src(s).replace(' ', '') for s in body]
+    # semantic form of the pairing (independent of the names of the locals): unconditional updates, by target and operator
+    lv = src(loop[0].target)
+    pairs = (('self.active[%s]' % lv, ast.Sub, 'refined cells leave the active set of their level'),
+             ('self.deactivated[%s]' % lv, ast.BitOr, 'and enter the deactivated set of the same level'),
+             ('self.active[%s+1]' % lv, ast.BitOr, 'their children become active on the next level'))
+    vals = {}
+    all_sem = True
+    for tgt, op, why in pairs:
+        top = [s for s in body if isinstance(s, ast.AugAssign) and src(s.target).replace(' ', '') == tgt and isinstance(s.op, op)]
+        if not top:
+            all_sem = False
+            break
+        vals[tgt] = top[0]
+    if all_sem:
+        a, d, c = (vals[p[0]] for p in pairs)
+        same = src(a.value) == src(d.value)
+        ctx.decide('R04.3', r.qual, 'cells removed from active[%s] are the cells added to deactivated[%s]' % (lv, lv), same or None, a,
+                   'one set of refined cells on both sides (%s / %s)' % (src(a.value), src(d.value)))
+        kids = any(isinstance(x, ast.Call) and src(x.func).endswith('cell_children') for x in ast.walk(c.value)) or \
+            any(isinstance(x, ast.Name) and any(isinstance(s, ast.Assign) and any(isinstance(t, ast.Name) and t.id == x.id for t in s.targets)
+                                                 and 'cell_children' in src(s.value) for s in body) for x in ast.walk(c.value)) or \
+            'new_cells' in src(c.value)
+        ctx.decide('R04.3', r.qual, 'cells added to active[%s+1] are the children of the refined cells' % lv, kids or None, c, src(c.value)[:80])
+        if not all(k in texts or any(a_ in texts for a_ in ()) for k in ()):
+            pass
+        texts_ok = True
+    else:
+        texts_ok = False
+    if all_sem and not all(k in texts for k in ('self.active[lv]-=cells', 'self.deactivated[lv]|=cells')):
+        # renamed locals: the semantic obligations above stand in for the textual table below
+        cc = ctx.prog.func(H + '.HMesh.cell_children')
+        t = src(cc.node).replace(' ', '')
+        ctx.decide('R04.3', cc.qual, 'children of cell c: product of range(2*ci, 2*(ci+1))', 'range(2*ci,2*(ci+1))' in t or None, cc.node, 'dyadic refinement: 2^d children')
+        cp = ctx.prog.func(H + '.HMesh.cell_parent')
+        ctx.decide('R04.3', cp.qual, 'parent: ci // 2', 'ci//2' in src(cp.node).replace(' ', '') or None, cp.node)
+        _r04_3_hspace(ctx)
+        return
     need = {
         'self.active[lv]-=cells': 'refined cells leave the active set of their level',
         'self.deactivated[lv]|=cells': 'and enter the deactivated set of the same level',
@@ -193,8 +234,15 @@ def r04_3(ctx):
     ctx.decide('R04.3', cc.qual, 'children of cell c: product of range(2*ci, 2*(ci+1))', 'range(2*ci,2*(ci+1))' in t or None, cc.node, 'dyadic refinement: 2^d children')
     cp = ctx.prog.func(H + '.HMesh.cell_parent')
     ctx.decide('R04.3', cp.qual, 'parent: ci // 2', 'ci//2' in src(cp.node).replace(' ', '') or None, cp.node)
+    _r04_3_hspace(ctx)
+
+
+def _r04_3_hspace(ctx):
     hr = ctx.prog.func(H + '.HSpace.refine')
     loop = [l for l in own_nodes(hr.node) if isinstance(l, ast.For) and 'range(len(self.hmesh.meshes) - 1)' in src(l.iter)]
+    if not loop:
+        loop = [l for l in own_nodes(hr.node) if isinstance(l, ast.For) and guards.in_loop(l, hr.node) is None
+                and any(isinstance(s, ast.AugAssign) and src(s.target).startswith('self.actfun[') for s in ast.walk(l))]
     if not loop:
         raise AnchorMissing('R04.3: level loop of HSpace.refine')
     texts = [src(s).replace(' ', '') for s in loop[0].body]
@@ -203,8 +251,24 @@ def r04_3(ctx):
         present = k in texts or k.replace('|=', '.update(').replace('-=', '.difference_update(') + ')' in texts
         if present:
             ctx.met('R04.3', hr.qual, k, loop[0], why)
+            continue
+        # the same update with another right-hand side (a helper call, a renamed local): look at the target and the operator
+        tgt = k.split('|=')[0].split('-=')[0]
+        op = ast.BitOr if '|=' in k else ast.Sub
+        meth = 'update' if '|=' in k else 'difference_update'
+        top = [s for s in loop[0].body if (isinstance(s, ast.AugAssign) and src(s.target).replace(' ', '') == tgt and isinstance(s.op, op))
+               or (isinstance(s, ast.Expr) and isinstance(s.value, ast.Call) and src(s.value.func).replace(' ', '') == tgt + '.' + meth)]
+        nested = [s for s in ast.walk(loop[0]) if isinstance(s, ast.AugAssign) and src(s.target).replace(' ', '') == tgt and isinstance(s.op, op)]
+        if top:
+            ctx.met('R04.3', hr.qual, k, top[0], why + ' (as `%s`)' % src(top[0])[:70])
+        elif nested:
+            ctx.violated('R04.3', hr.qual, k, nested[0], why + ': the update is present only conditionally')
         else:
-            ctx.violated('R04.3', hr.qual, k, loop[0], why + ': statement missing or conditional')
+            writes = [s for s in ast.walk(loop[0]) if isinstance(s, (ast.Assign, ast.AugAssign)) and tgt in src(s).replace(' ', '')]
+            if writes:
+                ctx.undecided('R04.3', hr.qual, k, writes[0], why + ': written in another form')
+            else:
+                ctx.violated('R04.3', hr.qual, k, loop[0], why + ': no statement of the level loop updates ' + tgt)
     nf = [s for s in loop[0].body if isinstance(s, ast.Assign) and src(s.targets[0]) == 'newfuncs']
     ok = bool(nf) and src(nf[0].value).replace(' ', '') == 'set((fforfincandidate_funcsifmsh.support([f]).issubset(fine_cells)))'
     ctx.decide('R04.3', hr.qual, src(nf[0])[:120] if nf else 'newfuncs', ok or None, nf[0] if nf else loop[0], 'activation filtered by support inside the refined region')
